@@ -1,6 +1,14 @@
 """C09 - compile-time evaluation agrees with run-time evaluation (TV part; see c09 SHIM part in c09_shim)."""
-from . import famcheck
+from . import famcheck, c09_shim
 from .. import families
+
+
+def _post(rep, recs):
+    n = c09_shim.run_all(rep)
+    rep.coverage["shim_symint"] = dict(
+        queries=n, explanation="the REAL simplify_unary/arithmetic/compare/conditional_expr run on SymInt operands (136-bit bit-vector "
+        "backed ints; every non-negative literal value that fits the literal's type; all 4x4 literal type combinations x operators); z3 "
+        "compares the folded value modulo 2^w and the result type with the C11 evaluation")
 
 
 def run(tier):
@@ -12,4 +20,4 @@ def run(tier):
         "statement-expressions that live code before/after still uses (checked by TV and by the declared-before-use constraints); "
         "sizeof of types, variables and expressions.  Folded result observed through a signed 64-bit destination, so value and type "
         "are compared with the C11 run-time evaluation for all register contents.",
-        wf_clauses=("c10:", "c11:"))
+        wf_clauses=("c10:", "c11:"), post=_post)
